@@ -7,8 +7,8 @@ Import ListNotations.
 Open Scope Z_scope.
 
 (* ---------- bytes ---------- *)
-Definition byte := Z.                      (* 0 <= b < 256 *)
-Definition bytes := list byte.
+Notation byte := Z (only parsing).          (* 0 <= b < 256 *)
+Notation bytes := (list Z) (only parsing).
 Definition is_byte (b:Z) : bool := (0 <=? b) && (b <? 256).
 
 Inductive err := ETrunc | EBadIndex | EBadHeader | EUnsupported | EFuel.
@@ -146,9 +146,9 @@ Inductive node :=
 | NDet (deps:list nat)
 | NMux (idx:nat) (opts:list nat).
 
-Definition dag := list node.
+Notation dag := (list node) (only parsing).
 
-Definition seen := list nat.
+Notation seen := (list nat) (only parsing).
 Definition mem (i:nat) (s:seen) : bool := existsb (Nat.eqb i) s.
 
 (* A multiplexer's index must be a primitive int distribution (Options/Uniform build a
@@ -217,7 +217,7 @@ Definition enc_sample (deps:list nat) : option bytes :=
 End Sample.
 
 (* Decoding: the decoder's memo [values] = (seen, primitive values decoded so far). *)
-Definition penv := list (nat * val).
+Notation penv := (list (nat * val)) (only parsing).
 Fixpoint plook (i:nat) (e:penv) : option val :=
   match e with [] => None | (j,v) :: t => if Nat.eqb i j then Some v else plook i t end.
 
